@@ -525,7 +525,13 @@ def ob_lock_il(w, P):
             lk.release()
             done[name] = True
         return run
-    w.preconnect(cB, (100, 2) if same else (200, 1))
+    ida, idb = (100, 1), ((100, 2) if same else (200, 1))
+    if P.get('ids'):
+        # (pid, thread ident) pairs whose decimal digits run together to the same string: the owner tag must still tell them apart
+        ida, idb = tuple(P['ids'][0]), tuple(P['ids'][1])
+        w.pid, w.tid = ida
+    w.preconnect(cA, ida)
+    w.preconnect(cB, idb)
     if P.get('history'):
         # contender A has held the resource before and given it back in full: what that leaves behind (an owner tag with count 0, a
         # restored permit) must not let A back in past the other contender
@@ -534,7 +540,7 @@ def ob_lock_il(w, P):
         flag('history')
     w.start_events()
     il = w.interleave(body('A', lkA), body('B', lkB), w.int('at', 0, P.get('max_events', 14)), w.int('at2', 0, P.get('max_events', 14)),
-                      id_a=(100, 1), id_b=(100, 2) if same else (200, 1))
+                      id_a=ida, id_b=idb)
     w.stop_events()
     cl = [('C15', 'never more holders than the capacity', not wit.bad),
           ('C15', 'both contenders got the resource and finished', done.get('A') is True and (done.get('B') is True or not il.b_started))]
@@ -680,6 +686,9 @@ def jobs(tier):
                             functions=LF, weight=10, twin=False, must_reach=['both_suspended', 'history']))
         out.append(dict(id='lock.%s.il.history.fanout' % kind, func='ob_lock_il', params=dict(kind=kind, fanout=True, value=1, history=True), tags=['C15'], functions=LF, weight=10, twin=False,
                         must_reach=['both_suspended', 'history']))
+    for kind in ('lock', 'rlock', 'sem'):
+        out.append(dict(id='lock.%s.il.ids' % kind, func='ob_lock_il', params=dict(kind=kind, same_object=False, value=1, ids=[[12, 34], [1, 234]]), tags=['C15'],
+                        functions=LF, weight=10, twin=False, must_reach=['both_suspended']))
     for kind in ('rlock', 'sem'):
         for fan in (False, True):
             out.append(dict(id='lock.%s.badrel.nested%s' % (kind, '.fanout' if fan else ''), func='ob_badrel_nested', params=dict(kind=kind, fanout=fan, value=1), tags=['C15', 'C06'], functions=LF, weight=4, twin=False))
